@@ -24,6 +24,23 @@ KINDS = {
     "arr": ("[u64; 2]", 2),
     "s2": ("S2", 1),
     "gen": ("T", 1),
+    "string": ("String", 1),
+    "str": ("&str", 1),
+    "optu": ("Option<u64>", 1),
+    "mutref": ("&mut u64", 1),
+    "slice": ("&[u64]", 2),
+    "vecu": ("Vec<u64>", 2),
+    "fn": ("impl Fn(u64) -> u64", 1),
+    "fnsend": ("impl Fn(u64) -> u64 + Send + Sync", 1),
+    "fnmut": ("impl FnMut(u64) -> u64 + Send", 1),
+    "fnonce": ("impl FnOnce(u64) -> u64 + Send", 1),
+    "boxfn": ("Box<dyn Fn(u64) -> u64 + Send + Sync>", 1),
+    "iter": ("impl Iterator<Item = u64> + Send", 2),
+    "into": ("impl Into<u64> + Send", 1),
+    "refref": ("&&u64", 1),
+    "tup3": ("(u64, (u64, u64))", 3),
+    "arrN": ("[u64; N]", 3),
+    "genm": ("U", 1),
 }
 
 
@@ -85,14 +102,38 @@ class Param:
             return [f"{n}[0]", f"{n}[1]"]
         if k == "s2":
             return [f"{n}.s"]
-        if k == "gen":
+        if k in ("gen", "genm"):
             return [f"{n}.fp()"]
+        if k == "string":
+            return [f"sim::str_fp(&{n})"]
+        if k == "str":
+            return [f"sim::str_fp({n})"]
+        if k == "optu":
+            return [f"{n}.unwrap_or(0)"]
+        if k == "mutref":
+            return [f"*{n}"]
+        if k in ("slice", "vecu"):
+            return [f"{n}[0]", f"{n}[1]"]
+        if k in ("fn", "fnsend", "boxfn", "fnonce"):
+            return [f"{n}(7)"]
+        if k == "fnmut":
+            return [f"{{ let mut __g = {n}; __g(7) }}"]
+        if k == "iter":
+            return [f"{{ let mut __i = {n}; __i.next().unwrap_or(0) }}"]
+        if k == "into":
+            return [f"{n}.into()"]
+        if k == "refref":
+            return [f"**{n}"]
+        if k == "tup3":
+            return [f"{n}.0", f"{n}.1 .0", f"{n}.1 .1"]
+        if k == "arrN":
+            return [f"{n}[0]", f"{n}[1]", f"{n}[2]"]
         raise ValueError(k)
 
     def call(self, k):
         """(prelude, expr, expected fps, values consumed)"""
         kd = self.kind
-        if kd == "u64" or kd == "gen":
+        if kd in ("u64", "gen", "genm"):
             return ("", f"v[{k}]", [f"v[{k}]"], 1)
         if kd == "u32":
             return ("", f"v[{k}] as u32", [f"v[{k}]"], 1)
@@ -110,6 +151,34 @@ class Param:
             return ("", f"W(v[{k}])", [f"v[{k}]"], 1)
         if kd == "s2":
             return ("", f"S2 {{ s: v[{k}] }}", [f"v[{k}]"], 1)
+        if kd == "string":
+            # harness-side construction of owned arguments is masked out of the allocation count
+            return ("", f"sim::masked(|| v[{k}].to_string())", [f"v[{k}]"], 1)
+        if kd == "str":
+            return (f"let s{k} = sim::masked(|| v[{k}].to_string());", f"&s{k}[..]", [f"v[{k}]"], 1)
+        if kd == "optu":
+            return ("", f"Some(v[{k}])", [f"v[{k}]"], 1)
+        if kd == "mutref":
+            return (f"let mut m{k} = v[{k}];", f"&mut m{k}", [f"v[{k}]"], 1)
+        if kd == "slice":
+            return ("", f"&v[{k}..{k+2}]", [f"v[{k}]", f"v[{k+1}]"], 2)
+        if kd == "vecu":
+            return ("", f"sim::masked(|| vec![v[{k}], v[{k+1}]])", [f"v[{k}]", f"v[{k+1}]"], 2)
+        if kd in ("fn", "fnsend", "fnmut", "fnonce"):
+            # a capturing closure (captures the reference to the argument vector)
+            return ("", f"move |x: u64| x ^ v[{k}]", [f"7 ^ v[{k}]"], 1)
+        if kd == "boxfn":
+            return (f"let c{k} = v[{k}];", f"sim::masked(|| Box::new(move |x: u64| x ^ c{k}) as Box<dyn Fn(u64) -> u64 + Send + Sync>)", [f"7 ^ v[{k}]"], 1)
+        if kd == "iter":
+            return (f"let i{k} = [v[{k}], v[{k+1}]];", f"i{k}.into_iter()", [f"v[{k}]"], 2)
+        if kd == "into":
+            return ("", f"v[{k}] as u32", [f"v[{k}]"], 1)
+        if kd == "refref":
+            return (f"let rr{k} = &v[{k}];", f"&rr{k}", [f"v[{k}]"], 1)
+        if kd == "tup3":
+            return ("", f"(v[{k}], (v[{k+1}], v[{k+2}]))", [f"v[{k}]", f"v[{k+1}]", f"v[{k+2}]"], 3)
+        if kd == "arrN":
+            return ("", f"[v[{k}], v[{k+1}], v[{k+2}]]", [f"v[{k}]", f"v[{k+1}]", f"v[{k+2}]"], 3)
         raise ValueError(kd)
 
 
@@ -128,7 +197,8 @@ def P(spec):
 
 class Fn:
     def __init__(self, name, deps, params, ret="u64", is_async=False, calls=(), opts="",
-                 props=("C01",), below="", trait=None, vis="pub", send=True):
+                 props=("C01",), below="", trait=None, vis="pub", send=True, generics=(), where=(),
+                 bundle_args="", default_body=False, attrs=""):
         self.name = name
         self.trait = trait or "".join(w.capitalize() for w in name.split("_"))
         self.deps = deps  # (form, [bounds])
@@ -141,6 +211,11 @@ class Fn:
         self.below = below
         self.vis = vis
         self.send = send
+        self.extra_generics = list(generics)
+        self.extra_where = list(where)
+        self.bundle_args = bundle_args
+        self.default_body = default_body
+        self.attrs = attrs
         self.fn_id = None
         self.method_id = None
         self.container = None  # module name / impl target
@@ -200,6 +275,8 @@ def fn_text(fn, indent="", in_impl=False):
     lt = ["'a"] if lifetimes(fn) else []
     if any(p.kind == "gen" for p in fn.params):
         gens = gens + ["T: Fp"]
+    gens = gens + fn.extra_generics
+    where = where + fn.extra_where
     generics = lt + gens
     g = f"<{', '.join(generics)}>" if generics else ""
     params = ([first] if first else []) + [p.sig(i, fn.name) for i, p in enumerate(fn.params)]
@@ -283,8 +360,8 @@ def single(fn):
     register(fn)
     attr = f"#[entrait(pub {fn.trait}{', ' + fn.opts if fn.opts else ''})]"
     corpus.append((HET if fn.hetero else "") + attr + "\n" + fn_text(fn))
-    t = fn.trait + ("<u64>" if any(p.kind == "gen" for p in fn.params) else "")
-    if fn.deps[0] != "byval":
+    t = fn.trait + (fn.bundle_args or ("<u64>" if any(p.kind == "gen" for p in fn.params) else ""))
+    if fn.deps[0] != "byval" and fn.bundle_args != "-":
         bundle_traits.append((t, fn.hetero))
     return fn
 
@@ -333,6 +410,25 @@ single(Fn("generic_m", ("gen", ["F0"]), ["gen", "gen", "u64"], calls=["f0"]))
 single(Fn("pairs", ("impl", ["F0"]), ["pair", "pair", "arr"]))
 single(Fn("u32s", ("impl", ["F0"]), ["u32", "u32", "u32", "u64", "u64"]))
 single(Fn("ret_refdeps", ("impl", ["SlotRef"]), ["u64", "u64"], ret="refdeps"))
+single(Fn("f6", ("impl", ["F0"]), ["u64"] * 6, calls=["f0"], props=("C01", "C14")))
+single(Fn("f7", ("gen", ["F1"]), ["u64"] * 7, calls=["f1"]))
+single(Fn("f8", ("impl", ["F0"]), ["u64"] * 8))
+single(Fn("t_string", ("impl", ["F0"]), ["string", "u64", "string"], calls=["f0"]))
+single(Fn("t_str", ("impl", ["F0"]), ["str", "str", "u64"]))
+single(Fn("t_opt", ("impl", ["F0"]), ["optu", "optu"]))
+single(Fn("t_mutref", ("impl", ["F0"]), ["mutref", "u64", "mutref"]))
+single(Fn("t_slice", ("impl", ["F0"]), ["slice", "slice"]))
+single(Fn("t_vec", ("impl", ["F0"]), ["vecu", "u64", "vecu"]))
+single(Fn("t_fn", ("impl", ["F0"]), ["fn", "u64", "fn"], calls=["f0"]))
+single(Fn("t_fnmut", ("impl", ["F0"]), ["u64", "fnmut"]))
+single(Fn("t_fnonce", ("impl", ["F0"]), ["fnonce", "fnonce"]))
+single(Fn("t_boxfn", ("impl", ["F0"]), ["boxfn", "u64"]))
+single(Fn("t_iter", ("impl", ["F0"]), ["iter", "u64"]))
+single(Fn("t_into", ("impl", ["F0"]), ["into", "into", "u64"]))
+single(Fn("t_refref", ("impl", ["F0"]), ["refref", "ref"]))
+single(Fn("t_tup3", ("impl", ["F0"]), ["tup3", "u64"]))
+single(Fn("t_raw", ("impl", ["F0"]), ["name=r#type:u64", "name=r#fn:u64", "u64"]))
+single(Fn("t_where", ("gen", ["F0"]), ["gen", "gen"], where=["T: Clone + Send"], calls=["f0"]))
 # async
 single(Fn("af0", ("any", []), [], is_async=True, props=("C01", "C14")))
 single(Fn("af1", ("impl", ["Af0"]), ["u64"], is_async=True, calls=["af0"], props=("C01", "C14")))
@@ -347,6 +443,12 @@ single(Fn("adestr", ("impl", ["Af0"]), ["destr:pair", "wild:u64", "destr:arr", "
 single(Fn("asame", ("impl", ["Af0"]), ["u64", "same:u64"], is_async=True))
 single(Fn("aret_tracked", ("impl", ["Af0"]), ["tracked", "u64"], ret="tracked", is_async=True, calls=["af0"]))
 single(Fn("a_nosend", ("impl", ["Af0"]), ["u64", "u64"], is_async=True, calls=["af0"], opts="?Send", send=False))
+single(Fn("af6", ("impl", ["Af0"]), ["u64"] * 6, is_async=True, calls=["af0"], props=("C01", "C14")))
+single(Fn("aret_unit0", ("any", []), [], ret="unit", is_async=True))
+single(Fn("at_string", ("impl", ["Af0"]), ["string", "str"], is_async=True, calls=["af0"]))
+single(Fn("at_fn", ("impl", ["Af0"]), ["fnsend", "u64", "fnmut"], is_async=True, calls=["af0"]))
+single(Fn("at_vec", ("impl", ["Af0"]), ["vecu", "slice"], is_async=True))
+single(Fn("at_mutref", ("impl", ["Af0"]), ["mutref", "u64"], is_async=True))
 # no_deps
 single(Fn("nd0", ("nodeps", []), [], opts="no_deps"))
 single(Fn("nd2", ("nodeps", []), ["u64", "u64"], opts="no_deps"))
@@ -394,6 +496,14 @@ module("am3h", "Am3h", [
     Fn("ame", ("impl", ["Af1"]), ["tracked", "u64"], is_async=True, calls=["af1"]),
     Fn("amf", ("impl", ["F1"]), ["u64", "ref"], calls=["f1"]),
 ])
+module("m6", "M6", [Fn(f"m6{c}", ("impl", ["F0"]), ["u64", "u64", "u64"], calls=["f0"]) for c in "abcdef"])
+module("m6u", "M6u", [Fn(f"m6u{c}", ("impl", ["F0"]), ["u64", "u64"], ret="unit") for c in "abc"]
+       + [Fn(f"am6u{c}", ("impl", ["Af0"]), ["u64", "u64"], ret="unit", is_async=True, calls=["af0"]) for c in "abc"])
+module("mh", "Mh", [
+    Fn("mh_fn", ("impl", ["F0"]), ["fn", "u64"]),
+    Fn("mh_str", ("impl", ["F0"]), ["str", "string"]),
+    Fn("amh_fn", ("impl", ["Af0"]), ["fnonce", "u64"], is_async=True),
+])
 module("mnd", "Mnd", [
     Fn("mna", ("nodeps", []), ["u64", "u64"]),
     Fn("mnb", ("nodeps", []), ["u64", "u64"]),
@@ -436,24 +546,35 @@ def lookup_kind(name):
     return LOOKUP_KINDS[name]
 
 
+def method_generics(fn):
+    lt = ["'a"] if lifetimes(fn) else []
+    if any(p.kind == "genm" for p in fn.params):
+        lt = lt + ["U: Fp"]
+    return f"<{', '.join(lt)}>" if lt else ""
+
+
 def decl_text(fn):
     """method declaration inside a hand-written trait"""
-    lt = ["'a"] if lifetimes(fn) else []
-    g = f"<{', '.join(lt)}>" if lt else ""
+    g = method_generics(fn)
     slf = "&'a self" if fn.ret == "refdeps" else "&self"
     params = [slf] + [p.sig(i, fn.name) for i, p in enumerate(fn.params)]
     ret = {"u64": " -> u64", "unit": "", "refarg": " -> &'a u64", "tracked": " -> Tracked"}[fn.ret]
     asy = "async " if fn.is_async else ""
-    return f"    {asy}fn {fn.name}{g}({', '.join(params)}){ret};\n"
+    attrs = f"    {fn.attrs}\n" if fn.attrs else ""
+    if fn.default_body:
+        # a default body the provider overrides: reaching it is a mis-forwarding (function id 60000)
+        body = " {\n        let __f = sim::enter(60000, sim::addr(self), &[]);\n        sim::exit(__f, &[])\n    }\n"
+        return f"{attrs}    {asy}fn {fn.name}{g}({', '.join(params)}){ret}{body}"
+    return f"{attrs}    {asy}fn {fn.name}{g}({', '.join(params)}){ret};\n"
 
 
 def self_impl_fn_text(fn, id_expr):
     """hand-written provider impl of one trait method (simulator-owned leaf)"""
-    lt = ["'a"] if lifetimes(fn) else []
-    g = f"<{', '.join(lt)}>" if lt else ""
+    g = method_generics(fn)
     params = ["&self"] + [p.sig(i, fn.name) for i, p in enumerate(fn.params)]
     ret = {"u64": " -> u64", "unit": "", "refarg": " -> &'a u64", "tracked": " -> Tracked"}[fn.ret]
     asy = "async " if fn.is_async else ""
+    attrs = f"    {fn.attrs}\n" if fn.attrs else ""
     fps = []
     for i, p in enumerate(fn.params):
         fps += p.body_fps(i, fn.name)
@@ -471,7 +592,7 @@ def self_impl_fn_text(fn, id_expr):
     elif fn.ret == "tracked":
         lines += ["let __r = sim::exit(__f, &[]);", "Tracked::new(__r)"]
     body = "\n".join("        " + l for l in lines)
-    return f"    {asy}fn {fn.name}{g}({', '.join(params)}){ret} {{\n{body}\n    }}\n"
+    return f"{attrs}    {asy}fn {fn.name}{g}({', '.join(params)}){ret} {{\n{body}\n    }}\n"
 
 
 def trait_section(name, delegate, methods, async_trait=False, generic=False, supers=""):
@@ -535,17 +656,29 @@ trait_section("Plain", "self", [
     Fn("p_unit", SELF, ["u64", "u64"], ret="unit"),
     Fn("p0", SELF, []),
     Fn("p5", SELF, ["u64", "u64", "u64", "u64", "u64"]),
+    Fn("p_default", SELF, ["u64", "u64"], default_body=True),
+    Fn("p_cfg", SELF, ["u64", "u64"], attrs="#[cfg(all())]"),
+    Fn("p_unit0", SELF, [], ret="unit"),
 ])
+trait_section("PlainSuper", "self", [
+    Fn("ps1", SELF, ["u64", "u64"]),
+    Fn("ps_unit", SELF, ["u64"], ret="unit"),
+], supers=": Sync + 'static")
 trait_section("PlainH", "self", [
     Fn("p3", SELF, ["refa", "u64"], ret="refarg"),
     Fn("p_moved", SELF, ["tracked", "u64", "tracked"]),
     Fn("p_moved2", SELF, ["tracked", "u64", "tracked"]),
+    Fn("p_genm", SELF, ["genm", "genm"]),
+    Fn("p_fn", SELF, ["fn", "u64"]),
+    Fn("p_str", SELF, ["str", "string"]),
 ])
 trait_section("PlainGen", "self", [Fn("pg", SELF, ["gen", "gen", "u64"])], generic=True)
 trait_section("ByRef", "ref", [
     Fn("r1", SELF, ["u64", "u64"]),
     Fn("r2", SELF, ["u64", "u64"]),
     Fn("r3", SELF, ["u64", "u64", "u64"]),
+    Fn("r_unit", SELF, ["u64", "u64"], ret="unit"),
+    Fn("r_default", SELF, ["u64", "u64"], default_body=True),
 ], supers=": 'static")
 trait_section("ByRefH", "ref", [
     Fn("r_moved", SELF, ["u64", "tracked"]),
@@ -554,12 +687,17 @@ trait_section("ByRefH", "ref", [
 trait_section("ByBorrow", "borrow", [
     Fn("b1", SELF, ["u64", "u64"]),
     Fn("b2", SELF, ["u64", "u64"]),
+    Fn("b_unit", SELF, ["u64", "u64"], ret="unit"),
+    Fn("b0", SELF, []),
 ], supers=": 'static")
 trait_section("APlain", "self", [
     Fn("ap1", SELF, ["u64", "u64"], is_async=True),
     Fn("ap2", SELF, ["u64", "u64"], is_async=True),
     Fn("ap3", SELF, ["u64", "u64", "u64"], is_async=True),
     Fn("ap_sync", SELF, ["u64", "u64"]),
+    Fn("ap_unit", SELF, ["u64", "u64"], ret="unit", is_async=True),
+    Fn("ap_unit0", SELF, [], ret="unit", is_async=True),
+    Fn("ap_default", SELF, ["u64", "u64"], is_async=True, default_body=True),
 ])
 trait_section("APlainH", "self", [
     Fn("ap_moved", SELF, ["tracked", "u64"], is_async=True),
@@ -568,9 +706,12 @@ trait_section("APlainH", "self", [
 trait_section("ARef", "ref", [
     Fn("ar1", SELF, ["u64", "u64"], is_async=True),
     Fn("ar2", SELF, ["u64", "u64"], is_async=True),
+    Fn("ar_unit", SELF, ["u64", "u64"], ret="unit", is_async=True),
+    Fn("ar_sync", SELF, ["u64", "u64"]),
 ], async_trait=True, supers=": Sync + 'static")
 trait_section("ABorrow", "borrow", [
     Fn("ab1", SELF, ["u64", "u64"], is_async=True),
+    Fn("ab_unit", SELF, ["u64"], ret="unit", is_async=True),
 ], async_trait=True, supers=": Sync + 'static")
 
 # the slot trait used by ret_refdeps (plain accessor, not recorded)
@@ -653,26 +794,34 @@ inversion("Inv", "InvImpl", "static", [
     (Fn("i2", SELF, ["u64", "u64"]), ("impl", ["F1"]), ["f1"]),
     (Fn("i4", SELF, ["u64", "u64", "u64", "u64"]), ("where", ["F0"]), ["f0"]),
     (Fn("i0", SELF, []), ("any", []), []),
+    (Fn("i_unit", SELF, ["u64", "u64"], ret="unit"), ("impl", ["F0"]), ["f0"]),
+    (Fn("i6", SELF, ["u64"] * 6), ("any", []), []),
 ], delegate_ident="DelegateInv")
 inversion("InvH", "InvHImpl", "static", [
     (Fn("i3", SELF, ["refa", "u64"], ret="refarg"), ("any", []), []),
     (Fn("i_moved", SELF, ["tracked", "u64"]), ("impl", ["F0", "F1"]), ["f0", "f1"]),
     (Fn("i_moved2", SELF, ["tracked", "u64"]), ("impl", ["F0"]), ["f0"]),
+    (Fn("i_fn", SELF, ["fn", "u64"]), ("impl", ["F0"]), ["f0"]),
+    (Fn("i_str", SELF, ["str", "string"]), ("any", []), []),
 ], delegate_ident="DelegateInvH")
 inversion("AInv", "AInvImpl", "static", [
     (Fn("ai1", SELF, ["u64", "u64"], is_async=True), ("impl", ["Af0"]), ["af0"]),
     (Fn("ai2", SELF, ["u64", "u64"], is_async=True), ("impl", ["Af1", "F0"]), ["af1", "f0"]),
     (Fn("ai3", SELF, ["u64", "u64", "u64"], is_async=True), ("gen", ["Af0"]), ["af0"]),
     (Fn("ai_sync", SELF, ["u64", "u64"]), ("impl", ["F0"]), ["f0"]),
+    (Fn("ai_unit", SELF, ["u64", "u64"], ret="unit", is_async=True), ("impl", ["Af0"]), ["af0"]),
+    (Fn("ai_unit0", SELF, [], ret="unit", is_async=True), ("any", []), []),
 ], delegate_ident="DelegateAInv")
 inversion("AInvH", "AInvHImpl", "static", [
     (Fn("ai_moved", SELF, ["u64", "tracked"], is_async=True), ("gen", ["Af0"]), ["af0"]),
     (Fn("ai_ref", SELF, ["refa", "u64"], ret="refarg", is_async=True), ("any", []), []),
+    (Fn("ai_fn", SELF, ["fnsend", "u64"], is_async=True), ("impl", ["Af0"]), ["af0"]),
 ], delegate_ident="DelegateAInvH")
 inversion("DynInv", "DynInvImpl", "dyn", [
     (Fn("d1", SELF, ["u64", "u64"]), ("gen", ["F0"]), ["f0"]),
     (Fn("d2", SELF, ["u64", "u64"]), ("impl", ["F1"]), ["f1"]),
     (Fn("d3", SELF, ["u64", "u64", "u64"]), ("any", []), []),
+    (Fn("d_unit", SELF, ["u64", "u64"], ret="unit"), ("impl", ["F0"]), ["f0"]),
 ])
 inversion("DynInvH", "DynInvHImpl", "dyn", [
     (Fn("d_moved", SELF, ["tracked", "u64"]), ("any", []), []),
@@ -681,6 +830,8 @@ inversion("DynInvH", "DynInvHImpl", "dyn", [
 inversion("ADynInv", "ADynInvImpl", "dyn", [
     (Fn("ad1", SELF, ["u64", "u64"], is_async=True), ("impl", ["Af0"]), ["af0"]),
     (Fn("ad2", SELF, ["u64", "u64"], is_async=True), ("impl", ["Af0"]), ["af0"]),
+    (Fn("ad_unit", SELF, ["u64", "u64"], ret="unit", is_async=True), ("impl", ["Af0"]), ["af0"]),
+    (Fn("ad_sync", SELF, ["u64", "u64"]), ("any", []), []),
 ], async_trait=True)
 
 # --------------------------------------------------------------------------
@@ -710,6 +861,10 @@ usingle(Fn("und2", ("nodeps", []), ["u64", "u64"], opts="no_deps"), "Und2Mock")
 usingle(Fn("und3", ("nodeps", []), ["u64", "u64", "u64"], opts="no_deps"), "Und3Mock")
 usingle(Fn("und_destr", ("nodeps", []), ["destr:pair", "u64"], opts="no_deps"), "UndDestrMock")
 usingle(Fn("aund2", ("nodeps", []), ["u64", "u64"], opts="no_deps", is_async=True), "Aund2Mock")
+usingle(Fn("au_unit", ("impl", ["Au0"]), ["u64", "u64"], ret="unit", is_async=True, calls=["au0"]), "AuUnitMock")
+usingle(Fn("u_unit", ("impl", ["U0"]), ["u64", "u64"], ret="unit", calls=["u0"]), "UUnitMock")
+usingle(Fn("und4", ("nodeps", []), ["u64", "u64", "u64", "u64"], opts="no_deps"), "Und4Mock")
+usingle(Fn("aund_unit", ("nodeps", []), ["u64", "u64"], opts="no_deps", ret="unit", is_async=True), "AundUnitMock")
 um_fns = [
     Fn("uma", ("impl", ["U0"]), ["u64", "u64"], calls=["u0"]),
     Fn("umb", ("impl", ["U0"]), ["u64", "u64"], calls=["u0"]),
